@@ -365,6 +365,7 @@ func (m *Manager) Poll() error {
 	m.stateMu.Unlock()
 
 	m.logger.Debug("starting poll")
+	verifYieldSleepcmd("sleep.poll.before-onpoll")
 
 	// Call poll callback
 	if m.callbacks.OnPoll != nil {
